@@ -144,6 +144,10 @@ fn channel_thread(
             None
         }
     };
+    // the registration travels the channel's FIFO: a reply behind it proves it is installed
+    if let Err(e) = ch.qos(0, 0, false) {
+        out.errs.push(format!("barrier after listen_for_returns: {}", ek(&e)));
+    }
     let mut cons = Vec::new();
     for _ in 0..consumers {
         match ch.basic_consume("q", ConsumerOptions::default()) {
@@ -344,7 +348,9 @@ fn e2e_case(r: &mut Rng, allow_empty_frames: bool, res: &mut CaseResult) {
     res.obs("messages_sent", total_msgs);
     // everything sent; wait until read, then release the channel threads
     if !h.wait_in_drained(W) {
-        res.violate("inbound_not_consumed", "server->client bytes still unread 20s after they were sent".to_string());
+        // not part of this property's statement (and seen only on a heavily loaded machine
+        // with 1-byte reads): a wall-clock watchdog, hence inconclusive
+        res.inconclusive("server->client bytes still unread 20s after they were sent");
     }
     for f in &finish_txs {
         let _ = f.send(());
@@ -622,7 +628,7 @@ pub fn run(rc: &mut RunCtx) {
             rc.begin(&id);
             let mut res = CaseResult::new(id);
             let mut r = Rng::for_case(seed, 3, 0);
-            let maxlen = if rc.quick() { 7 } else { 10 };
+            let maxlen = if rc.miri() { 4 } else if rc.quick() { 7 } else { 10 };
             for len in 0..=maxlen {
                 let mut m = gen_msg(&mut r, "px", 4096, 42);
                 m.body = r.bytes(len);
@@ -640,7 +646,7 @@ pub fn run(rc: &mut RunCtx) {
     }
     rc.note("exhaustive_over", json!("every ordered partition of bodies of 0..=7 (quick) / 0..=10 (thorough) bytes x {deliver, return, get-ok} through the real ContentCollector"));
     // (2) component, random
-    let n = rc.n(200, 6000);
+    let n = if rc.miri() { 2 } else { rc.n(200, 6000) };
     for i in 0..n {
         let id = format!("probe:{}", i);
         if !rc.mine(&id) {
@@ -649,7 +655,7 @@ pub fn run(rc: &mut RunCtx) {
         rc.begin(&id);
         let mut res = CaseResult::new(id);
         let mut r = Rng::for_case(seed, 3, 100 + i);
-        for k in 0..50 {
+        for k in 0..(if rc.miri() { 8 } else { 50 }) {
             let dt = r.next();
             let m = gen_msg(&mut r, &format!("p{}", k), 4096, dt);
             let mut part = rand_partition(&mut r, m.body.len(), 4096, true);
@@ -662,7 +668,7 @@ pub fn run(rc: &mut RunCtx) {
         rc.end(res);
     }
     // (3) end to end
-    let n = rc.n(150, 5000);
+    let n = if rc.miri() { 0 } else { rc.n(150, 5000) };
     for i in 0..n {
         let id = format!("e2e:{}", i);
         if !rc.mine(&id) {
@@ -679,7 +685,7 @@ pub fn run(rc: &mut RunCtx) {
         rc.end(res);
     }
     // (4) starvation
-    for i in 0..rc.n(2, 10) {
+    for i in 0..(if rc.miri() { 0 } else { rc.n(2, 10) }) {
         let id = format!("starve:{}", i);
         if !rc.mine(&id) {
             continue;
